@@ -29,12 +29,19 @@ pub enum Act {
     /// the stream starts yielding cooperatively (Pending + self-wake) until the
     /// receiver's current/next poll returns
     Yield(usize),
+    /// the receiving socket is handed to another task: every later poll uses a new waker
+    NewWaker,
+    /// a new stream is inserted under a key that is still registered (a peer coming back
+    /// under its identity): the old stream is replaced
+    Reinsert(usize),
 }
 
 impl Act {
     pub fn code(&self) -> u64 {
         match self {
             Act::Yield(i) => 0x90 + *i as u64,
+            Act::NewWaker => 0xA0,
+            Act::Reinsert(i) => 0xB0 + *i as u64,
             Act::Arrive(i) => 0x10 + *i as u64,
             Act::Insert(i) => 0x20 + *i as u64,
             Act::Close(i) => 0x30 + *i as u64,
@@ -56,12 +63,18 @@ impl Act {
             Act::NInsert(i) => format!("mid-poll:insert({i})"),
             Act::NClose(i) => format!("mid-poll:close({i})"),
             Act::Yield(i) => format!("yield({i})"),
+            Act::NewWaker => "new-waker".into(),
+            Act::Reinsert(i) => format!("reinsert({i})"),
         }
     }
     pub fn from_name(s: &str) -> Option<Act> {
         let idx = |s: &str| s.trim_end_matches(')').rsplit('(').next().and_then(|x| x.parse::<usize>().ok());
         Some(if s == "poll" {
             Act::Poll
+        } else if s == "new-waker" {
+            Act::NewWaker
+        } else if s.starts_with("reinsert") {
+            Act::Reinsert(idx(s)?)
         } else if let Some(r) = s.strip_prefix("mid-poll:") {
             match Act::from_name(r)? {
                 Act::Arrive(i) => Act::NArrive(i),
@@ -136,6 +149,8 @@ pub struct Counters {
     pub max_overtaken_n: u64,
     pub yield_polls: u64,
     pub yielding_streams: u64,
+    pub waker_changes: u64,
+    pub reinserts: u64,
 }
 
 pub struct ScriptStream {
@@ -524,6 +539,37 @@ impl Engine {
             Act::NArrive(_) | Act::NInsert(_) | Act::NClose(_) => {
                 self.world.lock().unwrap().nested.push(a);
             }
+            Act::NewWaker => {
+                // a fresh recv call on another task: it polls at least once with its own waker
+                self.flag = Arc::new(RecvFlag { woken: AtomicBool::new(false), count: AtomicU64::new(0) });
+                self.parked = false;
+                self.world.lock().unwrap().counters.waker_changes += 1;
+            }
+            Act::Reinsert(i) => {
+                let h = {
+                    let mut g = self.world.lock().unwrap();
+                    let d = g.deliveries;
+                    let s = &mut g.st[i];
+                    if !s.inserted || s.removed || s.closed || s.ended {
+                        return;
+                    }
+                    // what the old connection had not delivered yet goes with it
+                    if !s.avail.is_empty() {
+                        s.delivered += s.avail.len() as u32;
+                        s.avail.clear();
+                    }
+                    s.waker = None;
+                    s.yielding = false;
+                    s.new_since_last_poll = true;
+                    s.ready_since = None;
+                    let _ = d;
+                    g.counters.reinserts += 1;
+                    g.handle.clone()
+                };
+                if let Some(h) = h {
+                    h.insert(i, ScriptStream { idx: i, world: self.world.clone() });
+                }
+            }
             Act::Yield(i) => {
                 let w = {
                     let mut g = self.world.lock().unwrap();
@@ -645,7 +691,7 @@ impl Gen {
             Act::Insert(i) | Act::NInsert(i) => self.inserted[i] = true,
             Act::Close(i) | Act::NClose(i) => self.closed[i] = true,
             Act::Remove(i) => self.removed[i] = true,
-            Act::Poll | Act::Yield(_) => {}
+            Act::Poll | Act::Yield(_) | Act::NewWaker | Act::Reinsert(_) => {}
         }
     }
 }
@@ -706,8 +752,10 @@ pub fn random_walk(k: usize, len: usize, seed: u64, saturate: bool) -> (Vec<Act>
             for i in 0..k {
                 if g.inserted[i] && !g.removed[i] && !g.closed[i] {
                     en.push(Act::Yield(i));
+                    en.push(Act::Reinsert(i));
                 }
             }
+            en.push(Act::NewWaker);
             // polls are frequent, structural changes rare
             let a = loop {
                 let a = *r.pick(&en);
@@ -718,6 +766,8 @@ pub fn random_walk(k: usize, len: usize, seed: u64, saturate: bool) -> (Vec<Act>
                     Act::Close(_) | Act::NClose(_) => r.chance(1, 12),
                     Act::Remove(_) => r.chance(1, 12),
                     Act::Yield(_) => r.chance(1, 4),
+                    Act::NewWaker => r.chance(1, 6),
+                    Act::Reinsert(_) => r.chance(1, 10),
                 };
                 if keep {
                     break a;
